@@ -58,6 +58,10 @@ def base_summaries_M(cfg, rep):
             loc[path] = lambda ctx: mk("gdbl", ctx.args[0])
         if path == "min_curve::element::Element::scalar_mul_both":
             loc[path] = lambda ctx: mk("gsmul_limbs", ctx.args[0], ctx.args[1])
+        if path in ("min_curve::element::Element::scalar_mul", "min_curve::element::Element::scalar_mul_vartime") and \
+                "min_curve::element::Element::scalar_mul_both" not in cfg.prog.bodies:
+            # no shared const-generic helper: the two public routines are the ladders themselves (each judged by the LADDER rule)
+            loc[path] = lambda ctx: mk("gsmul_limbs", ctx.args[0], ctx.args[1])
         if path.endswith("::conditional_select") and b.get("impl_self") == "min_curve::element::Element":
             loc[path] = lambda ctx: Tm.ite(mk("choice_true", ctx.args[2]), ctx.args[1], ctx.args[0])
     return loc
